@@ -223,6 +223,14 @@ def _int_lit(t):
         return None
 
 
+def _exit_if_none(opt, ret):
+    """ONE canonical form for "leave with Err(e) if the option is None", however it is written (`match .. None => return Err(e)`,
+    `let Some(x) = .. else { return Err(e) }`, `.ok_or(e)?`)"""
+    if isinstance(ret, VErr):
+        return ("try", f"{canon(opt)} is None => Err({ret.what})")
+    return ("return_if_none", opt, ret)
+
+
 def _deep_copy(v):
     if isinstance(v, VArr):
         return VArr([_deep_copy(x) for x in v.items], v.kind)
@@ -1115,7 +1123,7 @@ class Interp:
                     self.expr(none[0]["body"], dict_child(env))
                     self.fail(e, "None arm of a symbolic match does not diverge")
                 except Return as r:
-                    self.ctx.exits.append(("return_if_none", v, r.v))
+                    self.ctx.exits.append(_exit_if_none(v, r.v))
                 env2 = dict_child(env)
                 self.bind(some[0]["pat"]["elems"][0], VOpaque("some_of", [v]), env2)
                 return self.expr(some[0]["body"], env2)
@@ -1176,7 +1184,7 @@ class Interp:
                 self.fail(st, "let-else block does not diverge")
             except Return as r:
                 sub = tuple(self.ctx.log)
-                self.ctx.exits.append(("return_if_none", v, r.v, sub))
+                self.ctx.exits.append(_exit_if_none(v, r.v) if not sub else ("return_if_none", v, r.v, sub))
         finally:
             self.ctx.log = saved
         self.bind(pat["elems"][0], VOpaque("some_of", [v]), env)
@@ -1544,6 +1552,9 @@ class Interp:
             self.fail(e, "zip on symbolic iterator")
         if m == "map" and isinstance(recv, VSymIter) and isinstance(args[0], VOpaque) and args[0].name.startswith("fn:"):
             fname = args[0].name[3:]
+            if fname in self.contracts:
+                # a function passed by name is that function applied to the element (same meaning as the closure `|x| f(x)`)
+                return VSymIter.mapped(recv, self.contracts[fname](self, None, [recv.elem]))
             if fname.split("::")[-1] in PURE_GETTERS and "::" in fname:
                 fname = fname.split("::")[-1]        # `u64::to_be_bytes` as a function value == the method `.to_be_bytes()`
             return VSymIter.mapped(recv, VOpaque(fname, [recv.elem]))
